@@ -509,21 +509,16 @@ Proof.
   - destruct (Z.compare_spec (-1 * f_m a) (-1 * f_m b)); destruct (Z.eqb_spec (f_m a) (f_m b)); destruct (Z.gtb_spec (f_m a) (f_m b)); cbn [cmpZ]; lia.
 Qed.
 
-Lemma compare_exact a0 b0 : wf a0 -> wf b0 -> f_inf a0 = false -> f_nan a0 = false -> f_inf b0 = false -> f_nan b0 = false ->
-  (f_s a0 = f_s b0 \/ 0 < f_m a0 \/ 0 < f_m b0) ->
-  FPNum_compare a0 b0 = cmpZ (Qcompare (fval a0) (fval b0)).
-Proof. intros. apply compare_finite_with; auto. Qed.
-
-(* the guard is needed: -0 is ordered below +0 although both denote 0 ... *)
-Lemma compare_signed_zero :
+(* HISTORY (finding C12-CMP-ZERO, repaired by b24d7f8): without the early exit -0 was ordered below +0 although both denote 0 *)
+Lemma compare_signed_zero_before :
   let a := mkfp (-1) (-1) 0 1 false false in let b := mkfp 1 (-1) 0 1 false false in
-  FPNum_compare a b = -1 /\ FPNum_compare b a = 1 /\ Qcompare (fval a) (fval b) = Eq.
+  FPNum_compare_with true false a b = -1 /\ FPNum_compare_with true false b a = 1 /\ Qcompare (fval a) (fval b) = Eq.
 Proof. vm_compute. repeat split. Qed.
 
-(* ... and two infinities of different sign always compare as 1 *)
-Lemma compare_inf_inf :
+(* HISTORY (finding C12-CMP-INF, repaired by f0972ae): two infinities of different sign always compared as 1 *)
+Lemma compare_inf_inf_before :
   let ninf := mkfp (-1) 0 0 0 true false in let pinf := mkfp 1 0 0 0 true false in
-  FPNum_compare ninf pinf = 1 /\ FPNum_compare pinf ninf = 1.
+  FPNum_compare_with false false ninf pinf = 1 /\ FPNum_compare_with false false pinf ninf = 1.
 Proof. vm_compute. split; reflexivity. Qed.
 
 (* an infinity against a finite number is ordered correctly *)
@@ -532,12 +527,12 @@ Lemma compare_inf_fin a b : f_nan a = false -> f_nan b = false ->
   (f_inf a = false -> f_inf b = true -> FPNum_compare a b = - f_s b).
 Proof. intros Na Nb. unfold FPNum_compare, FPNum_compare_with. rewrite Na, Nb. split; intros -> ->; reflexivity. Qed.
 
-(* ------------------------------------------------------------------ compare with both repairs: a total order statement *)
+(* ------------------------------------------------------------------ compare is the order of the extended rationals *)
 (* all well-formed operands that are not NaN, infinities and signed zeros included *)
 Lemma compare_total a b : wf a -> wf b -> f_nan a = false -> f_nan b = false ->
-  FPNum_compare_with true true a b = xcmpZ (xval a) (xval b).
+  FPNum_compare a b = xcmpZ (xval a) (xval b).
 Proof.
-  intros Wa Wb Na Nb. pose proof Wa as [Sa _]. pose proof Wb as [Sb _]. unfold sign_ok in Sa, Sb.
+  intros Wa Wb Na Nb. pose proof Wa as [Sa _]. pose proof Wb as [Sb _]. unfold sign_ok in Sa, Sb. unfold FPNum_compare.
   destruct (f_inf a) eqn:Ia; destruct (f_inf b) eqn:Ib.
   - unfold FPNum_compare_with. rewrite Na, Nb, Ia, Ib. cbn [orb andb]. rewrite (xval_inf a Na Ia), (xval_inf b Nb Ib).
     destruct Sa as [-> | ->], Sb as [-> | ->]; reflexivity.
@@ -548,15 +543,14 @@ Proof.
   - rewrite (xval_fin a Ia Na), (xval_fin b Ib Nb). cbn [xcmpZ]. apply compare_finite_with; auto.
 Qed.
 
-(* each repair alone removes exactly its defect *)
-Lemma compare_inf_fixed a b : sign_ok a -> sign_ok b -> f_nan a = false -> f_nan b = false -> f_inf a = true -> f_inf b = true ->
-  forall zf, FPNum_compare_with true zf a b = xcmpZ (xval a) (xval b).
-Proof.
-  intros Sa Sb Na Nb Ia Ib zf. unfold FPNum_compare_with. rewrite Na, Nb, Ia, Ib. cbn [orb andb]. rewrite (xval_inf a Na Ia), (xval_inf b Nb Ib).
-  unfold sign_ok in Sa, Sb. destruct Sa as [-> | ->], Sb as [-> | ->]; reflexivity.
-Qed.
+Lemma compare_finite a b : wf a -> wf b -> f_inf a = false -> f_nan a = false -> f_inf b = false -> f_nan b = false ->
+  FPNum_compare a b = cmpZ (Qcompare (fval a) (fval b)).
+Proof. intros. apply compare_finite_with; auto. Qed.
 
-(* ------------------------------------------------------------------ reduceExponentPrecision (repaired) *)
+Lemma compare_nan a b : f_nan a || f_nan b = true -> FPNum_compare a b = 0.
+Proof. intros H. unfold FPNum_compare, FPNum_compare_with. rewrite H. reflexivity. Qed.
+
+(* ------------------------------------------------------------------ reduceExponentPrecision *)
 Lemma reduce_exponent_spec x prec : 1 <= prec -> 0 < f_p x ->
   let y := FPNum_reduceExponentPrecision x prec in
   let e_bias := (2 ^ prec - 1) / 2 in
